@@ -465,7 +465,11 @@ class Interp:
                 self.expr(x, env)
             return D.top()
         if isinstance(e, ast.NamedExpr):
-            raise Incomplete('walrus not modelled')
+            # (name := value): the value is bound in the current environment (the dict is shared with the statement that evaluates the expression)
+            v = self.expr(e.value, env)
+            if isinstance(e.target, ast.Name):
+                env[e.target.id] = v
+            return v
         raise Incomplete('expression kind %s not modelled (%s)' % (type(e).__name__, norm(e)[:60]))
 
     def call(self, e, env):
